@@ -3,7 +3,8 @@ package checks
 // C18, ROI part: "ROI span sets answer point-membership and mask queries consistently with their spans."
 // Every subset of a menu of 8 block spans (overlapping, adjacent, negative z / y / x, unsorted) is POSTed to a real roi
 // instance (8^3 blocks) in two orders; then GET roi, POST ptquery (both extreme voxels of every block of the universe) and
-// GET mask (whole universe, an unaligned box across the origin, a positive box) must agree with the set of blocks the
+// GET mask (whole universe, an unaligned box across the origin, a positive box, and a grid of 108 boxes beginning at every
+// block start of the universe in X, aligned and unaligned, over six first rows) must agree with the set of blocks the
 // spans name. The reference is a map[block]bool and floor division.
 
 import (
@@ -75,6 +76,15 @@ func c18ROI(c *vlib.Ctx) {
 		{"universe", [3]int{9 * c18B, 5 * c18B, 5 * c18B}, [3]int{-4 * c18B, -2 * c18B, -2 * c18B}},
 		{"unaligned-across-origin", [3]int{13, 7, 11}, [3]int{-5, -3, -9}},
 		{"positive", [3]int{30, 9, 8}, [3]int{3, 2, 1}},
+	}
+	// grid of boxes: every block start of the universe in X, aligned and unaligned, over a menu of first (y, z) rows - a
+	// mask must not depend on where the box begins relative to the spans of its first block row
+	for bx0 := -4; bx0 <= 4; bx0++ {
+		for _, dx := range []int{0, 3} {
+			for _, yz := range [][2]int{{-2 * c18B, -2 * c18B}, {-c18B + 1, 0}, {0, 0}, {0, -c18B}, {c18B, 0}, {0, c18B + 1}} {
+				boxes = append(boxes, box{"grid", [3]int{2*c18B + 1, c18B + 1, c18B + 1}, [3]int{bx0*c18B + dx, yz[0], yz[1]}})
+			}
+		}
 	}
 	var requests int64
 	n := len(c18SpanMenu)
